@@ -196,7 +196,7 @@ class Model:
                 kw['input_override'] = [self.D[x] for x in g['in']]
             if g.get('out'):
                 kw['output_override'] = [self.D[x] for x in g['out']]
-            self.D[g['n']] = Group(g['n'], [self.D[d['n']] for d in g['devs']], **kw)
+            self.D[g['n']] = Group(g['n'], [self.D[n_] for n_ in (g.get('listed') or [d['n'] for d in g['devs']])], **kw)
         for d in spec['devs']:
             self.mk(d)
         for x in spec.get('extras', []):
